@@ -218,7 +218,7 @@ func (c *reqScn) step(st string) {
 		h := c.hist[i]
 		var id uint32
 		switch arg(2) {
-		case "cur", "nohi", "short", "unissued":
+		case "cur", "cure", "nohi", "short", "unissued":
 			if len(h) == 0 {
 				id = c.base + 1 | 0x80000000
 			} else {
@@ -247,7 +247,9 @@ func (c *reqScn) step(st string) {
 		} else {
 			b = make([]byte, 4)
 			binary.BigEndian.PutUint32(b, id)
-			b = append(b, []byte(fmt.Sprintf("r%d", c.nrep))...)
+			if arg(2) != "cure" { // "cure": the current id and nothing else - an answer with an empty payload is an answer
+				b = append(b, []byte(fmt.Sprintf("r%d", c.nrep))...)
+			}
 			if arg(2) == "short" {
 				b = b[:1+c.nrep%3]
 			}
@@ -363,6 +365,8 @@ func reqScripted() []reqCfg {
 		// that request was answered it must not touch the request that is current by then (no early re-send)
 		{Opts: []reqCtxOpt{d}, Steps: []string{"conn", "conn", "send c0", "recv c0", "adv 1s", "drop p1", "reply p2 cur c0", "adv 1s", "send c0", "recv c0", "adv 2.999999s", "adv 1us", "adv 1.999999s", "adv 1us", "reply p2 cur c0"}},
 		{Opts: []reqCtxOpt{d}, Steps: []string{"conn", "conn", "send c0", "recv c0", "adv 2s", "drop p2", "drop p1", "conn", "reply p3 cur c0", "send c0", "adv 3s", "adv 1.999999s", "adv 1us", "recv c0", "reply p3 cur c0"}},
+		// an answer whose payload is empty completes the request like any other
+		{Opts: []reqCtxOpt{d, d}, Steps: []string{"conn", "send c0", "recv c0", "reply p1 cure c0", "send c1", "reply p1 cure c1", "recv c1", "adv 6s", "send c0", "reply p1 cur c0", "recv c0"}},
 		// retries disabled: loss cancels
 		{Opts: []reqCtxOpt{{Retry: 0}}, Steps: []string{"conn", "conn", "send c0", "recv c0", "drop p1", "drop p2", "conn", "adv 100s", "recv c0"}},
 		// slow peer: transmission not taken; retry goes to the other pipe; cancel; late release
@@ -396,7 +400,7 @@ func reqRandom(rng *rand.Rand) reqCfg {
 	np := 0
 	n := 6 + rng.Intn(22)
 	advs := []string{"1us", "699.999ms", "700ms", "1.999999s", "2s", "3s", "4.999999s", "5s", "5.000001s", "10s", "60s", "59.999999s"}
-	kinds := []string{"cur", "cur", "cur", "prev", "nohi", "short", "unissued", "dup"}
+	kinds := []string{"cur", "cur", "cur", "cure", "prev", "nohi", "short", "unissued", "dup"}
 	for i := 0; i < n; i++ {
 		opts := []string{"send", "send", "send", "recv", "recv", "recv", "adv", "adv", "conn"}
 		if np < 4 {
